@@ -83,3 +83,121 @@ pub fn spec_hashlittle(
 ) -> u32 {
     spec_hashlittle2(key, initval, 0, mix, fin).0
 }
+
+// ---------------------------------------------------------------------------------------------
+// Salsa20/20 (D. J. Bernstein, "Salsa20 specification"), 16-byte key ("tau") variant.
+// ---------------------------------------------------------------------------------------------
+
+/// quarterround(y0,y1,y2,y3) of the specification.
+pub fn spec_quarterround(y: [u32; 4]) -> [u32; 4] {
+    let z1 = y[1] ^ y[0].wrapping_add(y[3]).rotate_left(7);
+    let z2 = y[2] ^ z1.wrapping_add(y[0]).rotate_left(9);
+    let z3 = y[3] ^ z2.wrapping_add(z1).rotate_left(13);
+    let z0 = y[0] ^ z3.wrapping_add(z2).rotate_left(18);
+    [z0, z1, z2, z3]
+}
+
+/// rowround / columnround index quadruples of the specification, in the order
+/// columnround then rowround (= one doubleround).
+pub const SPEC_DOUBLEROUND: [[usize; 4]; 8] = [
+    [0, 4, 8, 12],
+    [5, 9, 13, 1],
+    [10, 14, 2, 6],
+    [15, 3, 7, 11],
+    [0, 1, 2, 3],
+    [5, 6, 7, 4],
+    [10, 11, 8, 9],
+    [15, 12, 13, 14],
+];
+
+/// Salsa20(x) = x + doubleround^10(x), serialised little-endian.
+pub fn spec_salsa20_core(x: [u32; 16], qr: fn([u32; 4]) -> [u32; 4]) -> [u8; 64] {
+    let mut w = x;
+    let mut r = 0;
+    while r < 10 {
+        let mut q = 0;
+        while q < 8 {
+            let ix = SPEC_DOUBLEROUND[q];
+            let z = qr([w[ix[0]], w[ix[1]], w[ix[2]], w[ix[3]]]);
+            w[ix[0]] = z[0];
+            w[ix[1]] = z[1];
+            w[ix[2]] = z[2];
+            w[ix[3]] = z[3];
+            q += 1;
+        }
+        r += 1;
+    }
+    let mut out = [0u8; 64];
+    let mut i = 0;
+    while i < 16 {
+        let v = w[i].wrapping_add(x[i]);
+        out[4 * i] = v as u8;
+        out[4 * i + 1] = (v >> 8) as u8;
+        out[4 * i + 2] = (v >> 16) as u8;
+        out[4 * i + 3] = (v >> 24) as u8;
+        i += 1;
+    }
+    out
+}
+
+/// Input block of the CASC variant: tau constants, 16-byte key twice, 8-byte nonce = IV
+/// (zero-extended from 4 bytes) with the 32-bit block index XORed little-endian into its first
+/// four bytes, 64-bit block counter.
+pub fn spec_casc_salsa_state(key: &[u8; 16], iv: &[u8], block_index: u32, counter: u64) -> [u32; 16] {
+    let le = |b: &[u8], o: usize| -> u32 {
+        (b[o] as u32) | (b[o + 1] as u32) << 8 | (b[o + 2] as u32) << 16 | (b[o + 3] as u32) << 24
+    };
+    let mut nonce = [0u8; 8];
+    let mut i = 0;
+    while i < 8 {
+        if i < iv.len() {
+            nonce[i] = iv[i];
+        }
+        i += 1;
+    }
+    let n0 = le(&nonce, 0) ^ block_index;
+    let n1 = le(&nonce, 4);
+    let k = [le(key, 0), le(key, 4), le(key, 8), le(key, 12)];
+    // sigma/tau for 16-byte keys: "expand 16-byte k"
+    [
+        0x6170_7865, k[0], k[1], k[2], k[3], 0x3120_646e, n0, n1, counter as u32, (counter >> 32) as u32,
+        0x7962_2d36, k[0], k[1], k[2], k[3], 0x6b20_6574,
+    ]
+}
+
+// ---------------------------------------------------------------------------------------------
+// RC4 (as published 1994): KSA + PRGA.
+// ---------------------------------------------------------------------------------------------
+pub struct SpecRc4 {
+    pub s: [u8; 256],
+    pub i: usize,
+    pub j: usize,
+}
+impl SpecRc4 {
+    pub fn new(key: &[u8]) -> Self {
+        let mut s = [0u8; 256];
+        let mut i = 0;
+        while i < 256 {
+            s[i] = i as u8;
+            i += 1;
+        }
+        let mut j = 0usize;
+        let mut i = 0;
+        while i < 256 {
+            j = (j + s[i] as usize + key[i % key.len()] as usize) % 256;
+            let t = s[i];
+            s[i] = s[j];
+            s[j] = t;
+            i += 1;
+        }
+        SpecRc4 { s, i: 0, j: 0 }
+    }
+    pub fn next(&mut self) -> u8 {
+        self.i = (self.i + 1) % 256;
+        self.j = (self.j + self.s[self.i] as usize) % 256;
+        let t = self.s[self.i];
+        self.s[self.i] = self.s[self.j];
+        self.s[self.j] = t;
+        self.s[(self.s[self.i] as usize + self.s[self.j] as usize) % 256]
+    }
+}
